@@ -23,7 +23,31 @@ func drawRe(t *rapid.T, alphabet []rune, depth int) *ref.Re {
 	// one case in eight: the catch-all shapes people actually write (and implementations like to special-case)
 	if depth > 0 && rapid.IntRange(0, 7).Draw(t, "common") == 0 {
 		anyRe := &ref.Re{Op: "any"}
-		switch rapid.IntRange(0, 4).Draw(t, "commonShape") {
+		switch rapid.IntRange(0, 8).Draw(t, "commonShape") {
+		case 5, 6, 7, 8:
+			// anchors written out by the user, binding the whole expression or only one branch of an alternation:
+			// ^x$, ^x|y$, ^x, y$, ^x|y
+			lit := func(l string) *ref.Re {
+				n := rapid.IntRange(1, 2).Draw(t, l+"N")
+				rs := make([]rune, n)
+				for i := range rs {
+					rs[i] = rapid.SampledFrom(alphabet).Draw(t, l)
+				}
+				return &ref.Re{Op: "lit", Lit: string(rs)}
+			}
+			bol, eol := &ref.Re{Op: "bol"}, &ref.Re{Op: "eol"}
+			switch rapid.IntRange(0, 4).Draw(t, "anchorShape") {
+			case 0:
+				return &ref.Re{Op: "cat", Subs: []*ref.Re{bol, lit("ax"), eol}}
+			case 1:
+				return &ref.Re{Op: "alt", Subs: []*ref.Re{{Op: "cat", Subs: []*ref.Re{bol, lit("ax")}}, {Op: "cat", Subs: []*ref.Re{lit("ay"), eol}}}}
+			case 2:
+				return &ref.Re{Op: "cat", Subs: []*ref.Re{bol, lit("ax")}}
+			case 3:
+				return &ref.Re{Op: "cat", Subs: []*ref.Re{lit("ay"), eol}}
+			default:
+				return &ref.Re{Op: "alt", Subs: []*ref.Re{{Op: "cat", Subs: []*ref.Re{bol, lit("ax")}}, lit("ay"), {Op: "cat", Subs: []*ref.Re{lit("az"), eol}}}}
+			}
 		case 0:
 			return &ref.Re{Op: "star", Subs: []*ref.Re{anyRe}} // .*
 		case 1:
